@@ -73,8 +73,11 @@ static HashMap pragma_once;
 static Token *preprocess2(Token *tok);
 static Macro *find_macro(Token *tok);
 
+// A directive starts with a '#' that is the first token of a source
+// line. A '#' that results from macro replacement is not one
+// (C11 6.10.3.4p3).
 static bool is_hash(Token *tok) {
-  return tok->at_bol && equal(tok, "#");
+  return tok->at_bol && !tok->origin && equal(tok, "#");
 }
 
 // Some preprocessor directives such as #include allow extraneous
@@ -741,7 +744,12 @@ static Token *subst(Token *tok, MacroArg *args) {
 // the '#' of a directive), so it keeps its own flags as well.
 static void inherit_flags(Token *first, Token *follow, Token *macro_token) {
   if (first == follow) {
-    first->at_bol = first->at_bol || macro_token->at_bol;
+    // A '#' in the middle of a source line does not become the first
+    // token of a line: it must not turn into a directive.
+    if (equal(first, "#") && !first->at_bol)
+      first->has_space = true;
+    else
+      first->at_bol = first->at_bol || macro_token->at_bol;
     first->has_space = first->has_space || macro_token->has_space;
     return;
   }
@@ -898,7 +906,7 @@ static char *read_include_filename(Token **rest, Token *tok, bool *is_dquote) {
 //   #endif
 static char *detect_include_guard(Token *tok) {
   // Detect the first two lines.
-  if (!is_hash(tok) || !equal(tok->next, "ifndef"))
+  if (!is_directive(tok, "ifndef"))
     return NULL;
   tok = tok->next->next;
 
@@ -908,7 +916,7 @@ static char *detect_include_guard(Token *tok) {
   char *macro = strndup(tok->loc, tok->len);
   tok = tok->next;
 
-  if (!is_hash(tok) || !equal(tok->next, "define") || !equal(tok->next->next, macro))
+  if (!is_directive(tok, "define") || !equal(tok->next->next, macro))
     return NULL;
 
   // Find the #endif that closes the #ifndef. The file is guarded only
@@ -916,7 +924,7 @@ static char *detect_include_guard(Token *tok) {
   // no #else or #elif branch.
   int depth = 0;
   for (tok = tok->next; tok->kind != TK_EOF; tok = tok->next) {
-    if (!is_hash(tok))
+    if (!is_hash(tok) || tok->next->at_bol)
       continue;
 
     Token *dir = tok->next;
@@ -1006,6 +1014,11 @@ static Token *preprocess2(Token *tok) {
 
     Token *start = tok;
     tok = tok->next;
+
+    // `#`-only line is legal. It's called a null directive. The next
+    // line is ordinary text, whatever word it starts with.
+    if (tok->at_bol)
+      continue;
 
     if (equal(tok, "include")) {
       bool is_dquote;
@@ -1133,10 +1146,6 @@ static Token *preprocess2(Token *tok) {
 
     if (equal(tok, "error"))
       error_tok(tok, "error");
-
-    // `#`-only line is legal. It's called a null directive.
-    if (tok->at_bol)
-      continue;
 
     error_tok(tok, "invalid preprocessor directive");
   }
